@@ -1,6 +1,6 @@
 """Rule registry."""
-from . import calendar_mode, normalise, eqhash, recurrence
+from . import calendar_mode, normalise, eqhash, recurrence, ownership
 
 ALL_RULES = {}
-for _mod in (calendar_mode, normalise, eqhash, recurrence):
+for _mod in (calendar_mode, normalise, eqhash, recurrence, ownership):
     ALL_RULES.update(_mod.RULES)
